@@ -140,10 +140,24 @@ def rdPktCall : Rd Pred.C09Av1.PktCall := do
   let ts ← Rd.bool
   pure { res := r, z := z, y := y, w := w, n := n, elems := es, frames := fr, twinSame := ts }
 
+/-- C09's ownership sentence names H264Packet and AV1Depacketizer only; for the deprecated
+    AV1Packet + frame.AV1 path the text claims no panic, so the twin probe is not evaluated
+    (`twinSame` stays in the observation: correspondence). -/
+def pktHistOkR (os : List Pred.C09Av1.PktCall) : Bool :=
+  Pred.C09Av1.histOk (os.map (fun o => { o with twinSame := true }))
+
+theorem pktHistOkR_of_histOk (os : List Pred.C09Av1.PktCall) :
+    Pred.C09Av1.histOk os = true → pktHistOkR os = true := by
+  simp only [pktHistOkR, Pred.C09Av1.histOk, List.all_map, List.all_eq_true]
+  intro h o ho
+  have := h o ho
+  simp [Pred.C09Av1.callOk] at this ⊢
+  exact ⟨this.1.1, this.1.2⟩
+
 def c09pkt : Handler :=
   mkHandler (do let r ← Rd.bool; let ps ← Rd.list Rd.obytes; pure (r, ps)) (Rd.list rdPktCall)
     (fun (r, ps) => pktCallsOf r {} [] ps)
-    (fun _ os => Pred.C09Av1.histOk os)
+    (fun _ os => pktHistOkR os)
 
 def handlers : List (String × Handler) :=
   [("c13.rt", rt), ("c13.leb", leb), ("c13.lebrd", lebrd), ("c13.obuhdr", obuhdr),
